@@ -27,7 +27,7 @@ ASSUMPTIONS = ["`cooler balance --ignore-dist D` ignores max(--ignore-diags, cei
 MIN_NONTRIVIAL = {"quick": 120, "thorough": 1200}
 REQUIRED_PROBES = ["pipe_reduce"]
 REQUIRED_FEATURES = ["map:builtin", "map:eager", "map:reverse-ordered", "map:unordered-permuted", "map:bursty-unordered",
-                     "map:pool.map", "map:pool.imap", "map:pool.imap_unordered", "chunksize:1", "chunksize:None",
+                     "map:pool.map", "map:pool.imap", "map:pool.imap_unordered", "map:threads.map", "map:threads.imap_unordered", "chunksize:1", "chunksize:None",
                      "chunksize:nnz+1", "mode:gw", "mode:cis", "mode:trans", "split-pipeline", "via:cli-balance", "history:path-reused",
                      "history:long-lived-object-after-file-regenerated-with-more-pixels",
                      "cli-balance:ignore-dist:not-a-multiple-of-binsize", "data:signed-integers-cancelling-within-chunks"]
@@ -119,7 +119,8 @@ def one_history(ctx, shard, i, rng, idx):
     perm_log, pool_log = [], []
     execs = []
     maps = ["builtin", "eager", "reverse-ordered", "lazy-gen", "unordered-permuted", "unordered-permuted",
-            "unordered-permuted", "bursty-unordered", "pool.map", "pool.imap", "pool.imap_unordered", "builtin", "eager"]
+            "unordered-permuted", "bursty-unordered", "pool.map", "pool.imap", "pool.imap_unordered", "builtin", "eager",
+            "threads.map", "threads.imap_unordered"]
     for k, mname in enumerate(maps):
         pool_k = mname.startswith("pool")
         cands = [cs for cs in sizes if cs not in small] if pool_k or k % 2 else sizes
@@ -129,6 +130,7 @@ def one_history(ctx, shard, i, rng, idx):
         execs.append((mname, cs, k))
     results = []
     pool = None
+    tpool = None
     tie = False
     try:
         for mname, cs, k in execs:
@@ -151,6 +153,12 @@ def one_history(ctx, shard, i, rng, idx):
                     m = sched.make_unordered_map(ctx.seed * 100 + k, perm_log)
                 elif mname == "bursty-unordered":
                     m = sched.make_bursty_unordered_map(ctx.seed * 100 + k, perm_log)
+                elif mname.startswith("threads"):
+                    # a thread pool: several chunks are in flight inside ONE process, sharing the pipeline's objects
+                    from multiprocessing.pool import ThreadPool
+                    if tpool is None:
+                        tpool = ThreadPool(4)
+                    m = tpool.map if mname == "threads.map" else tpool.imap_unordered
                 else:
                     if pool is None:
                         pool = mp.Pool(int([2, 3, 4][int(rng.integers(3))]))
@@ -282,6 +290,9 @@ def one_history(ctx, shard, i, rng, idx):
         if pool is not None:
             pool.close()
             pool.join()
+        if tpool is not None:
+            tpool.close()
+            tpool.join()
     # signed integer data (e.g. a difference map), ONE iteration, no MAD filter: every marginal is an exact integer sum in
     # any order, so the weights are exactly independent of the chunk size - also when values cancel inside a chunk
     cid = f"h:{shard['sub']}:{i}:signed"
